@@ -98,6 +98,10 @@ package band
 //@   loop 0: decreases len(deviceEnabledChannels) - rangeindex
 //@   loop 1: invariant idx: rangeindex >= 0 - 1 && rangeindex < len(pls) && len(chMask) == len(b.uplinkChannels) && fresh(chMask)
 //@   loop 1: modifies chMask[0:len(chMask)], pl
+// one payload (ChMaskCntl <= 15; encodable payloads have ChMaskCntl <= 7): block ChMaskCntl (channels 16*ChMaskCntl .. +15) takes the payload's mask bits as far as the
+// plan has such channels; every other channel keeps its state
+//@   loop 1: step block: pls[rangeindex].Redundancy.ChMaskCntl <= 15 ==> forall i int :: 0 <= i && i < 16 && int(pls[rangeindex].Redundancy.ChMaskCntl)*16 + i < len(chMask) ==> chMask[int(pls[rangeindex].Redundancy.ChMaskCntl)*16 + i] == pls[rangeindex].ChMask[i]
+//@   loop 1: step others: pls[rangeindex].Redundancy.ChMaskCntl <= 15 ==> forall j int :: 0 <= j && j < len(chMask) && (j < int(pls[rangeindex].Redundancy.ChMaskCntl)*16 || j >= int(pls[rangeindex].Redundancy.ChMaskCntl)*16 + 16) ==> chMask[j] == prev(chMask[j])
 //@   loop 1: decreases len(pls) - rangeindex
 //@   loop 3: invariant idx: rangeindex >= 0 - 1 && rangeindex < len(chMask) && fresh(chMask)
 //@   loop 3: invariant out-fresh: out == nil || fresh(out)
